@@ -169,8 +169,41 @@ def run(rep, tier):
     return __doc__
 
 
+class _AbsFree(Extractor):
+    """evaluates one side of an arm-selection test with |u| read as u (positive orientation)"""
+
+    def on_name(self, name, env):
+        return self.ctx.sym(name)
+
+    def on_call(self, node, fname, args, kwargs, env):
+        if fname in ("numpy.abs", "np.abs", "abs"):
+            return args[0]
+        raise AlgError("call %s" % fname)
+
+
+def switch_totals(gf, ctx):
+    """for each arm-selection test `|X| < |upper - lower| * (1 + tol)` of the grid function: the
+    quantity X (total change of the unperturbed profile) as written in the test, keyed by the
+    set of gradient arguments it mentions"""
+    out = {}
+    mod = gf.module
+    for nd in walk_own(gf.node):
+        if isinstance(nd, ast.If) and isinstance(nd.test, ast.Compare) and len(nd.test.ops) == 1 and isinstance(nd.test.ops[0], (ast.Lt, ast.LtE)):
+            names = {x.id for x in ast.walk(nd.test.left) if isinstance(x, ast.Name)} & {"grad_lower", "grad_upper"}
+            rnames = {x.id for x in ast.walk(nd.test.comparators[0]) if isinstance(x, ast.Name)}
+            if names and {"upper", "lower"} <= rnames:
+                try:
+                    v = _AbsFree(ctx, mod).expr(nd.test.left, {})
+                    v = v.subs({a: a.args[0] for a in v.all_atoms() if a.fname == "abs"})
+                    out[frozenset(names)] = (v, nd)
+                except AlgError:
+                    pass
+    return out
+
+
 def r3(prog, rep, gf):
-    """at grad*n == upper-lower (resp. (gl+gu)/2*n == upper-lower) the free coefficient a is 0"""
+    """at the equality of the arm-selection test (|X| == |upper-lower|) the free coefficient is 0:
+    the arm reduces to the unperturbed profile, so the two arms join continuously there"""
     for arm, switch in ((ARMS[1], "lower"), (ARMS[3], "upper"), (ARMS[5], "both")):
         label = arm[0]
         ctx = Context()
@@ -178,12 +211,12 @@ def r3(prog, rep, gf):
         n, lo = ctx.sym("n"), ctx.sym("lower")
         gl = ctx.sym("grad_lower") if arm[1] else None
         gu = ctx.sym("grad_upper") if arm[2] else None
-        if switch == "lower":
-            up = lo + gl * n
-        elif switch == "upper":
-            up = lo + gu * n
-        else:
-            up = lo + (gl + gu) / 2 * n
+        totals = switch_totals(gf, ctx)
+        key = frozenset(k for k, on in (("grad_lower", arm[1]), ("grad_upper", arm[2])) if on)
+        if key not in totals:
+            rep.ob("R3", "%s: arm-selection test found" % label, False, gf.site(), "no test of the form |X| < |upper-lower|*(1+tol) mentioning %s" % sorted(key), key=label + "/switch-test")
+            continue
+        up = lo + totals[key][0]
         f = ex.call_method("getSmoothMonotonicGridFunc", [n, lo, up], {"grad_lower": gl, "grad_upper": gu})
         i = ctx.sym("i")
         fi = ex.call_closure(f, [i], {})
